@@ -2124,7 +2124,7 @@ def sync(loop, func, *args, **kwargs):
         while not e.is_set():
             e.wait(10)
 
-    if error[0]:
+    if error[0] is not False:
         raise error[0]
     else:
         return result[0]
